@@ -447,15 +447,6 @@ func Check(c Case) (v vcase.Verdict) {
 				}
 			}
 			if err != nil {
-				// Known finding C19-a: a query that the server's parser finds
-				// unsatisfiable (two terms on one key that exclude each other) is
-				// answered with nothing by Query but with the error "EOF" by
-				// ListUploads. Booked only with exactly that signature.
-				if cl.contra && full == 0 && strings.TrimSpace(err.Error()) == "EOF" && vcase.KnownListed("C19-a") {
-					v.KnownHit("C19-a")
-					v.Label("list:known_finding_C19-a")
-					continue
-				}
 				v.Failf("%s: ListUploads(%q, %q, %d) failed: %v (model: %d uploads match)", where, q, st.Extra, st.Limit, err, full)
 				return
 			}
@@ -594,6 +585,9 @@ func labelUpload(v *vcase.Verdict, st Step, mu *mUpload) {
 				if needsQuote(ln.Val) {
 					v.Label("upload:value_needs_quoting")
 				}
+				if len(ln.Val) > 40 {
+					v.Label("upload:long_value")
+				}
 			case "del":
 				if seen[ln.Key] {
 					v.Label("upload:label_deletion")
@@ -685,8 +679,20 @@ func pick(t *rapid.T, xs []string, label string) string {
 	return xs[rapid.IntRange(0, len(xs)-1).Draw(t, label)]
 }
 
+// longVals: values longer than any plausible fixed-width buffer or column prefix.
+var longVals = []string{
+	"go1.23.5 linux/amd64 -gcflags=all=-N -l (long value)",
+	strings.Repeat("long-", 24) + "end",
+	strings.Repeat("x", 300) + "a",
+	strings.Repeat("x", 300) + "b",
+	strings.Repeat("é", 600),
+}
+
 func genValue(t *rapid.T) string {
-	if rapid.IntRange(0, 9).Draw(t, "valkind") < 8 {
+	switch k := rapid.IntRange(0, 19).Draw(t, "valkind"); {
+	case k == 0:
+		return pick(t, longVals, "longval")
+	case k < 16:
 		return pick(t, fileVals, "val")
 	}
 	rs := rapid.SliceOfN(rapid.SampledFrom([]rune{'a', 'b', 'c', '0', '1', ' ', '"', '\\', 'é', '~', '!'}), 1, 4).Draw(t, "valrunes")
